@@ -45,6 +45,36 @@ def expression_pool():
     return ex
 
 
+_RES = {'en-us': ('english', 'English'), 'es-es': ('spanish', 'Spanish'), 'fr-fr': ('french', 'French'), 'pt-br': ('portuguese', 'Portuguese'),
+        'it-it': ('italian', 'Italian'), 'de-de': ('german', 'German'), 'nl-nl': ('dutch', 'Dutch'), 'zh-cn': ('chinese', 'Chinese')}
+
+
+def duration_pool():
+    """Closed duration grammar: number form x every unit word of the culture's own unit table x glue x suffix x prefix."""
+    import importlib
+    from vmc import env
+    env.setup()
+    out = []
+    for cul in dt.CULTURES:
+        mod, cls = _RES[cul]
+        res = getattr(importlib.import_module('recognizers_date_time.resources.%s_date_time' % mod), cls + 'DateTime')
+        units = sorted(getattr(res, 'UnitMap', {}) or {})
+        if cul == 'en-us':
+            nums = ['1', '2', '3', '30', '1.5', '2.5', '0.5', 'a', 'an', 'one', 'two', 'three']
+            suffixes = ['', ' and a half', ' and a quarter']
+            prefixes = ['', 'for ']
+        else:
+            nums = ['1', '2', '3', '30', '1.5' if cul == 'zh-cn' else '1,5']
+            suffixes, prefixes = [''], ['']
+        for n in nums:
+            for u in units:
+                for glue in ((' ', '') if n[0].isdigit() else (' ',)) if cul != 'zh-cn' else ('',):
+                    for sfx in suffixes:
+                        for pre in prefixes:
+                            out.append((cul, pre + n + glue + u + sfx, u))
+    return out
+
+
 def nonexistent():
     out = []
     for (y, m, d) in ((2016, 2, 30), (2019, 2, 29), (2019, 4, 31), (2020, 2, 31), (2016, 6, 31), (2016, 11, 31), (1900, 2, 29),
@@ -68,10 +98,10 @@ def configure(tier, seed):
         d += timedelta(days=1 if thorough else 3)
     for y in range(1950, 2091, 1 if thorough else 10):
         refs += [datetime(y, 1, 1, 0, 0, 0), datetime(y, 12, 31, 23, 59, 59), datetime(y, 3, 1, 12, 0, 0)]
-    CFG.update(tier=tier, seed=seed, refs=refs, pool=expression_pool(), bad=nonexistent())
+    CFG.update(tier=tier, seed=seed, refs=refs, pool=expression_pool(), bad=nonexistent(), durations=duration_pool())
     return {'shard_depth': 99, 'progress': True,
             'bounds': {'generated_expressions': len(CFG['pool']), 'references_for_generated': len(refs),
-                       'nonexistent_date_inputs': len(CFG['bad']), 'extra_references_for_specs': [r.isoformat() for r in EXTRA_REFS]},
+                       'nonexistent_date_inputs': len(CFG['bad']), 'duration_grammar_expressions': len(CFG['durations']), 'extra_references_for_specs': [r.isoformat() for r in EXTRA_REFS]},
             'blocks': ['all'] if thorough else ['every 3rd day of %d' % leap, 'year boundaries every 10th year']}
 
 
@@ -97,7 +127,15 @@ def judge(ch, label, cul, q, ref, src):
 
 
 def body(ch):
-    part = ch.pick('part', ('specs', 'generated', 'nonexistent', 'two-threads'))
+    part = ch.pick('part', ('specs', 'generated', 'durations', 'nonexistent', 'two-threads'))
+    if part == 'durations':
+        pool = CFG['durations']
+        ci = ch.pick_index('chunk', (len(pool) + 99) // 100)
+        ch.shard()
+        cul, q, unit = ch.pick('expression', pool[ci * 100:(ci + 1) * 100])
+        ref = ch.pick('reference', (datetime(2016, 11, 7, 12, 0, 0), EXTRA_REFS[2]))
+        judge(ch, 'durations|%s|unit-word:%s' % (cul, unit), cul, q, ref, 'duration-grammar')
+        return
     if part == 'two-threads':
         # two callers with expressions of different kinds share the cached model: every schedule with <= 1 preemption at
         # 'coarse' granularity (entry of every extract/parse and of every function of the merging modules); every entity either
